@@ -166,8 +166,12 @@ func VHHeapStep() {
 
 // VHIter: the heap iterator is a cursor over Values() (each level sorted through a temporary heap).
 func VHIter() {
-	h, _ := VGHeap()
+	h, cells := VGHeap()
 	seq := h.Values()
+	// Values() is itself produced through the iterator: anchor it to the cells (a permutation of the contents)
+	probe := v.Int("probe")
+	v.Assert(len(seq) == len(cells), "C06,C08,C15:values-length")
+	v.Assert(vCount(seq, probe) == vCount(cells, probe), "C06,C08:values-permutation")
 	containers.VIterStep(func() containers.IteratorWithIndex[int] { return h.Iterator() }, seq, h)
 }
 
